@@ -965,7 +965,8 @@ class Interp:
             if arg.arg in pshapes:
                 cs.shape[arg.arg] = pshapes[arg.arg]
         cs.events = s.events + [self._mk(Ev('ENTER', call.lineno, callee.name, None, callee.kind,
-                                            {'callee': callee, 'awaited': awaited}))]
+                                            {'callee': callee, 'awaited': awaited, 'call': call,
+                                             'offset': getattr(call, '_param_offset', 1)}))]
         cs.conds = [c for c in s.conds if c[0].startswith('self.')]
         for cstate, cstatus in sub.block(callee.node.body, cs):
             self.count += 1
